@@ -203,6 +203,8 @@ func protoChoices(prop string) []string {
 	switch prop {
 	case "C09":
 		return []string{"http1", "boltpp", "bolt"}
+	case "C11":
+		return []string{"bolt", "http1", "boltpp", "boltv2", "http2"}
 	}
 	return []string{"bolt", "http1", "boltpp", "boltv2"}
 }
@@ -440,6 +442,9 @@ func (w *Proxy) Setup() error {
 	FLog = &filterLog{}
 	if p.Proto == "http2" {
 		w.h2UpOpts = drawH2Opts(ch, "h2up")
+		if p.ShutdownMs > 0 {
+			w.h2UpOpts = fastH2Opts(ch, "h2up")
+		}
 	}
 	w.cfgJSON = w.buildConfig()
 	m, err := StartMosn(w.cfgJSON)
